@@ -177,8 +177,10 @@ MustRefuse(g, o) ==
 C04_refused(g, t, o) == (Started(g) /\ MustRefuse(g, o)) => (~o.ok /\ t = g)
 
 (* C05 - a betting round closes exactly when it should                      *)
-C05_notEarly(g, t, o, h2) == (Betting(g) /\ t.ev = "RoundClosed" /\ o.ok /\ Cardinality(Alive(t)) >= 2) =>
-  \A p \in Movable(t) : t.P[p].wager = ToMatch(t) /\ (h2.valid => p \in h2.hadTurn)
+\* also when a round is closed WITHOUT having been opened (everybody all-in from the blinds, run-outs): nobody with
+\* chips may be left owing; the "had a turn" part applies to rounds that were opened
+C05_notEarly(g, t, o, h2) == (g.ev # "RoundClosed" /\ t.ev = "RoundClosed" /\ o.ok /\ Cardinality(Alive(t)) >= 2) =>
+  \A p \in Movable(t) : t.P[p].wager = ToMatch(t) /\ ((Betting(g) /\ h2.valid) => p \in h2.hadTurn)
 C05_notLate(t, h2) == (Betting(t) /\ h2.valid) => h2.since <= t.n
 C05_oneLeft(g, t, o) == (Betting(g) /\ o.ok /\ Cardinality(Alive(t)) = 1) => t.ev = "RoundClosed"
 C05_oneLeftEnds(g, t, o) == (g.ev = "RoundClosed" /\ Cardinality(Alive(g)) = 1 /\ o.op = "Next" /\ o.ok) =>
@@ -351,6 +353,7 @@ Exercised(g, t, o, h, h2) ==
   (IF Betting(g) /\ Betting(t) /\ o.ok /\ t # g THEN {"C04.clockwise"} ELSE {}) \cup
   (IF Started(g) /\ MustRefuse(g, o) THEN {"C04.refused"} ELSE {}) \cup
   (IF Betting(g) /\ t.ev = "RoundClosed" /\ o.ok /\ Cardinality(Alive(t)) >= 2 THEN {"C05.notEarly"} ELSE {}) \cup
+  (IF ~Betting(g) /\ g.ev # "RoundClosed" /\ t.ev = "RoundClosed" /\ o.ok /\ Cardinality(Alive(t)) >= 2 THEN {"C05.closedUnopened"} ELSE {}) \cup
   (IF Betting(g) /\ o.ok /\ Cardinality(Alive(t)) = 1 THEN {"C05.oneLeft"} ELSE {}) \cup
   (IF ~Betting(g) /\ Betting(t) /\ t.round # "preflop" THEN {"C05.noRoundWhenAllin"} ELSE {}) \cup
   (IF g.ev = "RoundClosed" /\ t.ev = "RoundClosed" /\ o.ok /\ t.round # g.round THEN {"C05.runout"} ELSE {}) \cup
